@@ -8,7 +8,7 @@ import Splipy.Model.Catalogue
 /-! Lemmas for C17: the catalogue files a node under every permutation of its codimension-1
 nodes, and finds it again from any of them. -/
 
-namespace Splipy
+namespace Splipy.MP
 
 /-! ### `pyPermutations` of a duplicate-free list is duplicate-free -/
 
@@ -97,9 +97,9 @@ theorem Level.get_foldl_mem (ks : List (List ℕ)) (hn : ks.Nodup) (lv : Level) 
       have : k ≠ q := fun e => hn.1 (e ▸ h)
       simp [this]
 
-end Splipy
+end Splipy.MP
 
-namespace Splipy
+namespace Splipy.MP
 
 /-! ### operations on nodes keep the objects, the levels and the vertex dictionary -/
 
@@ -273,4 +273,4 @@ theorem Model.resolve_after_addNode (m : Model) (obj obj' : Obj) (lower lower' :
     rw [hds] at hfv ⊢
     simp only [htw', Bool.false_eq_true, if_false, hfv]
 
-end Splipy
+end Splipy.MP
